@@ -12,20 +12,11 @@ KNOWN_FILE = VERIF / "known_findings.json"
 
 
 def load_known(prop: str) -> list[dict]:
-    """known_findings.json is the committed list; known/<id>.json files are per-property work files merged into it."""
-    entries = []
-    if KNOWN_FILE.exists():
-        entries += json.loads(KNOWN_FILE.read_text()).get("findings", [])
-    kd = VERIF / "known"
-    if kd.is_dir():
-        for f in sorted(kd.glob("*.json")):
-            entries += json.loads(f.read_text()).get("findings", [])
-    seen, out = set(), []
-    for e in entries:
-        if e.get("property") == prop and e.get("status") == "known" and e["id"] not in seen:
-            seen.add(e["id"])
-            out.append(e)
-    return out
+    """The committed list (known_findings.json, assembled from known/*.json by harness/known_merge.py)."""
+    if not KNOWN_FILE.exists():
+        return []
+    entries = json.loads(KNOWN_FILE.read_text()).get("findings", [])
+    return [e for e in entries if e.get("property") == prop and e.get("status") == "known"]
 
 
 class Run:
@@ -34,6 +25,8 @@ class Run:
     def __init__(self, prop: str, tier: str, seed: int, level: str = "model_checking") -> None:
         self.prop, self.tier, self.seed, self.level = prop, tier, seed, level
         self.t0 = time.time()
+        import shutil
+        shutil.rmtree(REPLAYS / prop, ignore_errors=True)      # replay files of an earlier run must not linger
         self.violations: list[dict] = []
         self.known_hits: dict[str, str] = {}
         self.known = {e["id"]: e for e in load_known(prop)}
